@@ -264,6 +264,8 @@ type c05Eng struct {
 	// callVal: value of a call expression on the current path, set while the statement containing it is
 	// transferred after the callee's body was executed path-sensitively (c06X.execViaCall)
 	callVal map[*ast.CallExpr]c05Lin
+	// noWeaker: set while a widening join runs (only bounds that hold unchanged survive a widening)
+	noWeaker bool
 }
 
 func newC05Eng(c *Ctx) *c05Eng {
@@ -838,9 +840,28 @@ func (e *c05Eng) indexKey(fr *c05Frame, st *c05State, ix *ast.IndexExpr) string 
 func (e *c05Eng) lenLin(fr *c05Frame, st *c05State, x ast.Expr) c05Lin {
 	x = unparen(x)
 	if ix, ok := x.(*ast.IndexExpr); ok {
-		if bk := e.pathKey(fr, ix.X); bk != "" {
+		// a row of a screen, or of a window X[a:b] of a screen (the rows are the screen's own)
+		if bk := e.pathKey(fr, c05StripSlices(ix.X)); bk != "" {
 			if e.isGrid(fr.info.TypeOf(ix.X)) {
 				return c05Atom(e.derived("rowlen:", bk))
+			}
+		}
+	}
+	if sx, ok := x.(*ast.SliceExpr); ok {
+		// len(X[lo:hi]) == hi - lo, with the defaults 0 and len(X) (the expression itself is judged by C05.p)
+		if t := fr.info.TypeOf(sx.X); t != nil {
+			_, isSl := t.Underlying().(*types.Slice)
+			if b, isB := t.Underlying().(*types.Basic); isSl || (isB && b.Info()&types.IsString != 0) {
+				var l c05Lin
+				if sx.High != nil {
+					l = e.linOf(fr, st, sx.High)
+				} else {
+					l = e.lenLin(fr, st, sx.X)
+				}
+				if sx.Low != nil {
+					l = l.addScaled(e.linOf(fr, st, sx.Low), -1)
+				}
+				return l
 			}
 		}
 	}
@@ -851,6 +872,18 @@ func (e *c05Eng) lenLin(fr *c05Frame, st *c05State, x ast.Expr) c05Lin {
 	st.env[k] = c05Top()
 	st.env[k].addLo("", 0)
 	return c05Atom(k)
+}
+
+// c05StripSlices: X for X[a:b], X[a:][:c], (X) ...
+func c05StripSlices(x ast.Expr) ast.Expr {
+	for {
+		x = unparen(x)
+		s, ok := x.(*ast.SliceExpr)
+		if !ok {
+			return x
+		}
+		x = s.X
+	}
 }
 
 // isGrid: [][]cell ; isRow: []cell
@@ -1170,6 +1203,48 @@ func (e *c05Eng) assume(fr *c05Frame, st *c05State, cond ast.Expr, pol bool) *c0
 	return st
 }
 
+// assumeAlts is assume without the join at a disjunction: the states in which cond has the value pol, one per
+// disjunct (A&&B false = !A | A&&!B). What every alternative entails holds after the condition — also a
+// relation that no single alternative carries as a fact (i >= ps | i >= len(tail) both give i >= COLS-col when
+// ps > COLS-col). At most eight alternatives; beyond that the joined state.
+func (e *c05Eng) assumeAlts(fr *c05Frame, st *c05State, cond ast.Expr, pol bool) []*c05State {
+	if st == nil {
+		return nil
+	}
+	cond = unparen(cond)
+	switch t := cond.(type) {
+	case *ast.UnaryExpr:
+		if t.Op == token.NOT {
+			return e.assumeAlts(fr, st, t.X, !pol)
+		}
+	case *ast.BinaryExpr:
+		if t.Op == token.LAND || t.Op == token.LOR {
+			var out []*c05State
+			if (t.Op == token.LAND) == pol {
+				for _, s1 := range e.assumeAlts(fr, st, t.X, pol) {
+					out = append(out, e.assumeAlts(fr, s1, t.Y, pol)...)
+				}
+			} else {
+				out = append(out, e.assumeAlts(fr, st.clone(), t.X, pol)...)
+				for _, s2 := range e.assumeAlts(fr, st.clone(), t.X, !pol) {
+					out = append(out, e.assumeAlts(fr, s2, t.Y, pol)...)
+				}
+			}
+			if len(out) > 8 {
+				if j := e.assume(fr, st, cond, pol); j != nil {
+					return []*c05State{j}
+				}
+				return nil
+			}
+			return out
+		}
+	}
+	if s := e.assume(fr, st, cond, pol); s != nil {
+		return []*c05State{s}
+	}
+	return nil
+}
+
 // ---------------------------------------------------------------- join / widen
 
 // join keeps from each side the bounds and facts the other side entails.
@@ -1182,6 +1257,10 @@ func (e *c05Eng) join(a, b *c05State, widen bool) *c05State {
 		return a.clone()
 	}
 	res := c05NewState()
+	if widen {
+		defer func(o bool) { e.noWeaker = o }(e.noWeaker)
+		e.noWeaker = true
+	}
 	keep := func(from, other *c05State) {
 		for key, v := range from.env {
 			if v.bot {
@@ -1197,11 +1276,15 @@ func (e *c05Eng) join(a, b *c05State, widen bool) *c05State {
 			for s, k := range v.lo {
 				if e.entailsBound(other, key, s, k, false) {
 					e.setBound(res, key).addLo(s, k)
+				} else if k2, ok := e.weakerBound(other, key, s, k, false); ok && !widen {
+					e.setBound(res, key).addLo(s, k2)
 				}
 			}
 			for s, k := range v.hi {
 				if e.entailsBound(other, key, s, k, true) {
 					e.setBound(res, key).addHi(s, k)
+				} else if k2, ok := e.weakerBound(other, key, s, k, true); ok && !widen {
+					e.setBound(res, key).addHi(s, k2)
 				}
 			}
 		}
@@ -1231,6 +1314,28 @@ func c05AddFactWeak(fs []c05Lin, l c05Lin) []c05Lin {
 		}
 	}
 	return append(fs, l)
+}
+
+// weakerBound: the other side of a join does not entail key >= s+k (key <= s+k); if it entails the
+// bound with a slack of one or two (end := col+ps joined with end := len(line) under col <= len(line):
+// end >= col+1 on one side, end >= col on the other), that weaker relation holds on both sides.
+func (e *c05Eng) weakerBound(st *c05State, key, s string, k int64, upper bool) (int64, bool) {
+	if e.noWeaker || s == "" || s == key || c05IsTmp(s) || c05IsTmp(key) || c05IsGeo(s) {
+		return 0, false
+	}
+	if _, ok := st.env[key]; !ok {
+		return 0, false
+	}
+	for d := int64(1); d <= 2; d++ {
+		k2 := k - d
+		if upper {
+			k2 = k + d
+		}
+		if e.entailsBound(st, key, s, k2, upper) {
+			return k2, true
+		}
+	}
+	return 0, false
 }
 
 func (e *c05Eng) entailsBound(st *c05State, key, s string, k int64, upper bool) bool {
@@ -1630,6 +1735,7 @@ func (e *c05Eng) assignExpr(fr *c05Frame, st *c05State, lhs ast.Expr, rhs ast.Ex
 			return
 		}
 		var ln, rl *c05Val
+		var lenEq *c05Lin
 		if rhs != nil {
 			r := unparen(rhs)
 			if call, ok := r.(*ast.CallExpr); ok {
@@ -1645,7 +1751,13 @@ func (e *c05Eng) assignExpr(fr *c05Frame, st *c05State, lhs ast.Expr, rhs ast.Ex
 			} else {
 				ll := e.lenLin(fr, st, r)
 				ln = e.evalLin(st, ll)
-				if rk := e.pathKey(fr, r); rk != "" && e.isGrid(lt) {
+				if _, isSx := r.(*ast.SliceExpr); isSx {
+					// x := X[lo:hi]: len(x) == hi - lo is kept as a relation, not only as bounds
+					if cl := e.canon(st, ll); len(cl.t) >= 2 {
+						lenEq = &cl
+					}
+				}
+				if rk := e.pathKey(fr, c05StripSlices(r)); rk != "" && e.isGrid(lt) {
 					if ov, ok := st.env[e.derived("rowlen:", rk)]; ok && ov.bot {
 						rl = ov.clone()
 					} else {
@@ -1664,6 +1776,24 @@ func (e *c05Eng) assignExpr(fr *c05Frame, st *c05State, lhs ast.Expr, rhs ast.Ex
 			delete(ln.lo, lenK)
 			delete(ln.hi, lenK)
 			st.env[lenK] = ln
+			if lenEq != nil {
+				usable := true
+				for a := range lenEq.t {
+					if a == lenK || a == lk || c05IsTmp(a) {
+						usable = false
+					}
+					for _, d := range e.deps[a] {
+						if d == lk {
+							usable = false
+						}
+					}
+				}
+				if usable {
+					d := c05Atom(lenK).addScaled(*lenEq, -1)
+					st.facts = c05AddFact(st.facts, d)
+					st.facts = c05AddFact(st.facts, d.neg())
+				}
+			}
 		}
 		if e.isGrid(lt) {
 			rlK := e.derived("rowlen:", lk)
@@ -2092,6 +2222,11 @@ func (e *c05Eng) storesOf(fi *FuncInfo) map[string]bool {
 		case *ast.IncDecStmt:
 			rec(s.X)
 		case *ast.CallExpr:
+			if dst := e.c05CopyDst(fr.info, s); dst != nil {
+				if k := e.pathKey(fr, dst); strings.HasPrefix(k, "@.") {
+					out[k] = true // rows are replaced
+				}
+			}
 			if fn := calleeOf(fr.info, s); fn != nil {
 				if cf := e.c.P.FuncOfObj(fn); cf != nil && cf.Pkg == e.pk && cf != fi {
 					for k := range e.storesOf(cf) {
@@ -2136,6 +2271,12 @@ func (e *c05Eng) directStores(fi *FuncInfo) map[string]bool {
 			}
 		case *ast.IncDecStmt:
 			rec(s.X)
+		case *ast.CallExpr:
+			if dst := e.c05CopyDst(fr.info, s); dst != nil {
+				if k := e.pathKey(fr, dst); strings.HasPrefix(k, "@.") {
+					out[k] = true // rows are replaced
+				}
+			}
 		}
 		return true
 	})
@@ -2445,7 +2586,7 @@ func (e *c05Eng) bindRange(fr *c05Frame, st *c05State, rs *ast.RangeStmt) {
 			}
 			// for _, line := range <screen>: len(line) is the screen's row length
 			if e.isGrid(fr.info.TypeOf(rs.X)) {
-				if xk := e.pathKey(fr, rs.X); xk != "" {
+				if xk := e.pathKey(fr, c05StripSlices(rs.X)); xk != "" {
 					lv := e.evalLin(st, c05Atom(e.derived("rowlen:", xk)))
 					lk := e.derived("len:", k)
 					delete(lv.lo, lk)
@@ -2513,6 +2654,8 @@ func (e *c05Eng) purgeTemps(st *c05State) {
 // transfer applies one CFG node; returns true when control does not continue.
 func (e *c05Eng) transfer(fr *c05Frame, st *c05State, n ast.Node) bool {
 	defer e.purgeTemps(st)
+	defer e.copyIntoGrid(fr, st, n)
+	e.enterCtxCalls(fr, st, n)
 	switch s := n.(type) {
 	case *ast.AssignStmt:
 		switch {
@@ -2862,6 +3005,7 @@ func runC05(c *Ctx) {
 		"C05.g every index into a screen ([][]cell) or row ([]cell) is within [0,ROWS-1] / [0,COLS-1]",
 		"C05.k every loop whose bound is a sequence parameter is limited by a screen dimension at its head or leaves early under a test of its own (no hours-long repeat count)",
 		"C05.h the host handle vt.vx is dereferenced only under a nil test",
+		c05pClause,
 	}
 	c.NotDec = []string{
 		"panics inside sgr parameter indexing (C18.e), third-party sixel decoding, and the host application's event handler",
@@ -2913,6 +3057,10 @@ func c05Funcs(c *Ctx, e *c05Eng) []*FuncInfo {
 		ast.Inspect(fi.Decl.Body, func(n ast.Node) bool {
 			switch x := n.(type) {
 			case *ast.IndexExpr:
+				if t := info.TypeOf(x.X); e.isGrid(t) || e.isRow(t) {
+					w = true
+				}
+			case *ast.SliceExpr:
 				if t := info.TypeOf(x.X); e.isGrid(t) || e.isRow(t) {
 					w = true
 				}
@@ -3003,6 +3151,11 @@ func c05RuleInvariant(c *Ctx, e *c05Eng) {
 						c.undecided("C05.g", fmt.Sprintf("%s/function literal indexes %s", fi.Name, types.ExprString(ix)), ix.Pos(), "a screen is indexed inside a function literal, which the engine does not enter")
 					}
 				}
+				if sx, ok := m.(*ast.SliceExpr); ok {
+					if t := info.TypeOf(sx.X); e.isGrid(t) || e.isRow(t) {
+						c.undecided("C05.p", fmt.Sprintf("%s/function literal slices %s", fi.Name, types.ExprString(sx)), sx.Pos(), "a screen is sliced inside a function literal, which the engine does not enter")
+					}
+				}
 				return true
 			})
 			return false
@@ -3011,7 +3164,8 @@ func c05RuleInvariant(c *Ctx, e *c05Eng) {
 	c.expect("C05.b", 30)
 	c.expect("C05.c", 10)
 	c.expect("C05.g", 40)
-	c.expect("C05.k", 6)
+	c.expect("C05.k", 4) // cursor-motion / repeat loops; the cell loops of ICH/ECH/IL may as well be written as copy/clear/range over a window (C05.p)
+	c.expect("C05.p", 1)
 	goals := e.goals()
 	// Every function is first checked on its own (INV at entry, parameters >= 0). A helper whose
 	// proof needs what only its callers know (an extracted loop body taking a row, ...) is then
@@ -3038,7 +3192,23 @@ func c05RuleInvariant(c *Ctx, e *c05Eng) {
 		}
 	}
 	// a helper is rescued if, checked inside its callers (and, where needed, their callers), no
-	// failure appears that the stand-alone round did not already have elsewhere
+	// failure appears that the stand-alone round did not already have elsewhere — and every construct
+	// of it that failed stand-alone was indeed judged again inside a caller (a helper the engine
+	// does not enter where it is called is not rescued by silence)
+	judgedInCtx := func(rs []c05Rec, cset map[*FuncInfo]bool) bool {
+		seen := map[string]bool{}
+		for _, r := range rs {
+			if r.ctx != nil {
+				seen[fmt.Sprintf("%s@%d", r.rule, r.pos)] = true
+			}
+		}
+		for _, r := range standalone {
+			if !r.ok && r.site && cset[r.owner] && !seen[fmt.Sprintf("%s@%d", r.rule, r.pos)] {
+				return false
+			}
+		}
+		return true
+	}
 	final := map[*FuncInfo]bool{}
 	for _, f := range cands {
 		if len(cands) > 6 {
@@ -3059,8 +3229,10 @@ func c05RuleInvariant(c *Ctx, e *c05Eng) {
 				}
 			}
 			if len(fresh) == 0 {
-				for m := range cset {
-					final[m] = true
+				if judgedInCtx(rs, cset) {
+					for m := range cset {
+						final[m] = true
+					}
 				}
 				break
 			}
@@ -3088,12 +3260,12 @@ func c05RuleInvariant(c *Ctx, e *c05Eng) {
 				okAll = false
 			}
 		}
-		if okAll {
+		if okAll && judgedInCtx(rs, final) {
 			recs = rs
 		}
 	}
 	fields := map[string]bool{}
-	setters, grids := 0, 0
+	setters, grids, slices := 0, 0, 0
 	for _, r := range recs {
 		if r.ok {
 			c.ok(r.rule, r.key, r.pos, "%s", r.msg)
@@ -3111,6 +3283,9 @@ func c05RuleInvariant(c *Ctx, e *c05Eng) {
 		if r.rule == "C05.g" {
 			grids++
 		}
+		if r.rule == "C05.p" {
+			slices++
+		}
 	}
 	// what must exist semantically (instead of brittle instance counts)
 	for _, f := range []string{"cursor.row", "cursor.col", "margin.top", "margin.bottom"} {
@@ -3124,6 +3299,9 @@ func c05RuleInvariant(c *Ctx, e *c05Eng) {
 	if grids == 0 {
 		c.undecided("C05.g", "widgets/term/grid accesses", 0, "no index into a screen was found")
 	}
+	if slices == 0 {
+		c.okTrivial("C05.p", "widgets/term/slice expressions on screens and rows", 0, "no screen or row is sliced: nothing can fail (every access is an index, C05.g)")
+	}
 }
 
 type c05Rec struct {
@@ -3134,6 +3312,7 @@ type c05Rec struct {
 	pos   token.Pos
 	ok    bool
 	msg   string
+	site  bool // produced at a construct inside the body (index, window, loop, argument), not at the exit
 }
 
 // c05CtxEligible: every use of the function is a direct call from a declared function of the
@@ -3265,7 +3444,7 @@ func c05InvRound(c *Ctx, e *c05Eng, goals []c05Goal, ctxSet map[*FuncInfo]bool) 
 				fn = fmt.Sprintf("%s (called from %s)", c05ShortFn(owner), strings.TrimPrefix(c05ShortFn(fi), "widgets/term."))
 			}
 			add := func(rule, key string, pos token.Pos, ok bool, format string, args ...any) {
-				recs = append(recs, c05Rec{owner: owner, ctx: cx, rule: rule, key: key, pos: pos, ok: ok, msg: fmt.Sprintf(format, args...)})
+				recs = append(recs, c05Rec{owner: owner, ctx: cx, rule: rule, key: key, pos: pos, ok: ok, msg: fmt.Sprintf(format, args...), site: true})
 			}
 			// C05.k: a loop whose bound is a count parameter is bounded by the screen (or leaves early)
 			if cx, isExpr := n.(ast.Expr); isExpr {
@@ -3323,6 +3502,8 @@ func c05InvRound(c *Ctx, e *c05Eng, goals []c05Goal, ctxSet map[*FuncInfo]bool) 
 					} else {
 						add("C05.g", fmt.Sprintf("%s/%s: %s index <= %s", fn, ex, what, lim), x.Pos(), false, "the %s index %s is not bounded by the length %s (bounds: %s): index out of range panic on child output", what, e.showLin(idx), e.showLin(ln), val)
 					}
+				case *ast.SliceExpr:
+					c05SliceObligations(e, fr, st, x, fn, add)
 				case *ast.CallExpr:
 					// append(<[]column>, v): tab stops stay >= 0
 					if id, ok := x.Fun.(*ast.Ident); ok && id.Name == "append" && len(x.Args) >= 2 {
